@@ -33,12 +33,22 @@ fn signature(addr: u16) -> Option<ParameterList> {
 #[derive(Clone, Debug, PartialEq)]
 struct ExpFrame { caller: u16, callee: u16, kind: u8, args: Vec<u16>, fp: Option<u16> }
 
-fn run(idx: u64, mode: u64, debug: bool, int_at: Option<u64>, vect: u8) -> Result<(u64, u64), (String, String)> {
+/// prior use of the simulator: a program that stops two calls deep (JSR; JSR; ...; TRAP x25 inside) was run on it, then reset()
+fn prior_machine(m: &Machine) -> Machine {
+    let mut pm = Machine::user();
+    pm.debug_frames = !m.debug_frames; pm.real_traps = false;
+    pm.regs = [0x0041, 0x3004, 2, 3, 4, 5, 0xFD00, 0x3006];
+    for (k, w) in [0x4800u16, 0x4800, 0xF021, 0xF025].iter().enumerate() { pm.pokes.push((0x3000 + k as u16, *w)); }
+    pm
+}
+fn run(idx: u64, mode: u64, debug: bool, int_at: Option<u64>, vect: u8) -> Result<(u64, u64), (String, String)> { run_on(idx, mode, debug, int_at, vect, false) }
+fn run_on(idx: u64, mode: u64, debug: bool, int_at: Option<u64>, vect: u8, reused: bool) -> Result<(u64, u64), (String, String)> {
     let (m, words) = machine(idx, mode, debug);
-    let mut p = build(&m);
+    let mut p = if reused { build_reused(&m, &prior_machine(&m), 200).map_err(|e| (format!("panic:{}", panic_site(&e)), format!("setting up a reused simulator: {e}")))? } else { build(&m) };
+    if reused && !p.sim.frame_stack.is_empty() { return Err(("depth-after-reset".into(), format!("frame depth {} right after reset() (nothing has executed)", p.sim.frame_stack.len()))); }
     for a in 0x3000..0x3008u16 { if let Some(s) = signature(a) { p.sim.frame_stack.set_subroutine_def(a, s); } }
     if let Some(at) = int_at { p.add_source(vect, 4, vec![at]); }
-    let what = format!("program {words:x?} mode {mode} debug_frames={debug} interrupt_at={int_at:?} vector x{vect:02X}");
+    let what = format!("program {words:x?} mode {mode} debug_frames={debug} interrupt_at={int_at:?} vector x{vect:02X}{}", if reused { " on a simulator that was reset() after a run that stopped two calls deep" } else { "" });
     let mut exp: Vec<ExpFrame> = vec![];
     let mut maxdepth = 0u64; let mut steps = 0u64;
     for _ in 0..60 {
@@ -90,7 +100,7 @@ fn run(idx: u64, mode: u64, debug: bool, int_at: Option<u64>, vect: u8) -> Resul
 }
 
 pub fn run_engine(ctx: &Ctx) -> Report {
-    let mut rep = Report::new("every program of 4 instructions over {JSR +0, JSR +1, JSRR R1, TRAP x21, TRAP x25, RET (= JMP R7), JMP R1, RTI, ADD} (6561 programs, unbalanced returns included) followed by a HALT sled x {user/virtual traps, user/real traps, supervisor/virtual with a prepared stack for RTI} x debug frames on/off x {no interrupt, one vectored interrupt (vector x90, or x21 whose low byte equals a trap vector with a built-in signature) raised at each of the first 10 (thorough 16) polls}; calling-convention (2 params, prepared stack) and pass-by-register signatures registered for 5 callee addresses; run in lock-step with RefLC3; after every step len() = calls - returns saturating, is_empty(), and with debug frames the entry list (caller address, callee/vector, kind, arguments per signature, frame pointer). non-trivial = runs that reach depth >= 2");
+    let mut rep = Report::new("every program of 4 instructions over {JSR +0, JSR +1, JSRR R1, TRAP x21, TRAP x25, RET (= JMP R7), JMP R1, RTI, ADD} (6561 programs, unbalanced returns included) followed by a HALT sled x {user/virtual traps, user/real traps, supervisor/virtual with a prepared stack for RTI} x debug frames on/off x {no interrupt, one vectored interrupt (vector x90, or x21 whose low byte equals a trap vector with a built-in signature) raised at each of the first 10 (thorough 16) polls}; calling-convention (2 params, prepared stack) and pass-by-register signatures registered for 5 callee addresses; and every program again on a simulator that first ran another program to a stop two calls deep (with the opposite debug_frames setting) and was reset(); run in lock-step with RefLC3; after every step len() = calls - returns saturating, is_empty(), and with debug frames the entry list (caller address, callee/vector, kind, arguments per signature, frame pointer). non-trivial = runs that reach depth >= 2");
     let polls = ctx.pick(10u64, 16u64);
     let stride = ctx.pick(3u64, 1u64);
     let nprog = 6561u64.div_ceil(stride);
@@ -107,6 +117,17 @@ pub fn run_engine(ctx: &Ctx) -> Report {
         acc.sample(k, ctx.seed, 40_009, || format!("program {:x?} mode {mode} debug={debug} interrupt_at={int_at:?}", machine(idx, mode, debug).1));
     });
     rep.absorb(r);
+    // the same programs on reused simulators (no interrupt dimension)
+    let r = sweep(ctx, nprog * MODES * 2, 32, |k, acc| {
+        let debug = k % 2 == 1; let mode = k / 2 % MODES; let pi = k / (2 * MODES);
+        let idx = (pi * stride + mode % stride).min(6560);
+        acc.evals += 1; acc.traces += 1; acc.count("on_reused_simulator", 1);
+        match run_on(idx, mode, debug, None, 0x90, true) {
+            Ok((steps, d)) => { acc.transitions += steps; if d >= 2 { acc.nontrivial += 1; } }
+            Err((sig, d)) => acc.violation(sig, format!("{idx}:{mode}:{}:-1:144:r", debug as u8), d),
+        }
+    });
+    rep.absorb(r);
     rep.bound("programs", Json::i(nprog)); rep.bound("interrupt_polls", Json::i(polls));
     rep.require(rep.acc.nontrivial > 10_000, "nested frames were reached");
     rep.assume("exception entries under real traps and RTI in user mode under ignore_privilege end the comparison (statement silent)");
@@ -115,5 +136,5 @@ pub fn run_engine(ctx: &Ctx) -> Report {
 pub fn replay(case: &str) -> Option<String> {
     let p: Vec<&str> = case.split(':').collect();
     let at: i64 = p.get(3)?.parse().ok()?;
-    run(p.first()?.parse().ok()?, p.get(1)?.parse().ok()?, *p.get(2)? == "1", if at < 0 { None } else { Some(at as u64) }, p.get(4).and_then(|x| x.parse().ok()).unwrap_or(0x90)).err().map(|(s, d)| format!("[{s}] {d}"))
+    run_on(p.first()?.parse().ok()?, p.get(1)?.parse().ok()?, *p.get(2)? == "1", if at < 0 { None } else { Some(at as u64) }, p.get(4).and_then(|x| x.parse().ok()).unwrap_or(0x90), p.get(5) == Some(&"r")).err().map(|(s, d)| format!("[{s}] {d}"))
 }
